@@ -1,4 +1,4 @@
-"""C08 -- source-annotated syntax tree (VGC + RCA rules R08.1-R08.8)."""
+"""C08 -- source-annotated syntax tree (VGC + RCA rules R08.1-R08.9)."""
 from __future__ import annotations
 
 import ast
@@ -67,6 +67,7 @@ def check(ctx, res) -> None:
     from .c14 import line_table_rule
 
     line_table_rule(ctx, res, "R08.8")
+    _fstring_family_rule(ctx, res)
 
 
 def _check_main(ctx, res) -> None:
@@ -285,3 +286,30 @@ def _alignment_rule(ctx, res) -> None:
             if which in rd and which not in seen:
                 res.undecided("R08.7", f"{f.name}|pairs:{which}", f.where, f"how {which} is aligned with parameters was not recognised")
     res.floor("R08.7", "default alignments in the patched-AST walker", n, 2)
+
+
+def _fstring_family_rule(ctx, res) -> None:
+    """R08.9: the token stream of an f-string is walked through two node kinds, JoinedStr and FormattedValue (its
+    replacement fields; a format spec is a JoinedStr again).  Wherever the walker's token loop treats f-string tokens
+    specially (no comment skipping: '#' is ordinary text there), the test names BOTH kinds."""
+    idx = ctx.idx
+    f = idx.need_func("rope.refactor.patchedast._PatchingASTWalker._handle")
+    n = 0
+    for x in walk_local(f.node):
+        if isinstance(x, ast.Call) and call_name(x) == "isinstance" and len(x.args) == 2:
+            ks = x.args[1].elts if isinstance(x.args[1], ast.Tuple) else [x.args[1]]
+            names = {(e.attr if isinstance(e, ast.Attribute) else getattr(e, "id", "")) for e in ks}
+            if not names & {"JoinedStr", "FormattedValue"}:
+                continue
+            # only the positive selection of the special consumption path (an `elif isinstance(...)` test), not `if not isinstance`
+            par_not = any(isinstance(u, ast.UnaryOp) and isinstance(u.op, ast.Not) and u.operand is x for u in ast.walk(f.node))
+            if par_not:
+                continue
+            n += 1
+            ok = {"JoinedStr", "FormattedValue"} <= names
+            res.add("R08.9", f"_handle|fstring-family#{n}", ok, f"{f.unit.rel}:{x.lineno}",
+                    "the f-string token path is selected for JoinedStr and FormattedValue alike" if ok else
+                    f"_handle selects the f-string token path with `{ast.unparse(x)}` only: the tokens of a replacement field ({{, :, format spec, }}) go through "
+                    "the ordinary consumer, which takes a '#' in the literal text before the field for a comment start (f\"issue #{n}\"): annotating fails "
+                    "with MismatchedTokenError or regions are taken from a later line", function=f.qualname)
+    res.floor("R08.9", "f-string selections in the token loop", n, 1)
